@@ -7,6 +7,14 @@ C01 — Rendered image equals the ideal perspective-correct image.
                               screen position of ONE point Σγᵢ·Pᵢ (Σγᵢ = 1) of the input triangle's
                               plane: attributes interpolated affinely in clip space, depth 1/w of
                               that point, position its projection through the viewport
+  `Retro.Props.C01.IdealFrag`: one fragment per triangle per pixel (`fragsAt_trifill`), and it IS the ideal
+                              fragment at the pixel centre: barycentric weights of the centre, all ≥ 0
+                              (`fragsAt_trifill_ideal`, `frag_depth_between`, `pixFrag_persp`, `pixFrag_input`)
+  `Retro.Props.C01.Ideal`   : the pixel theorems — `drawTris_pixel_ideal`, `drawTris_pixel_untouched`,
+                              `render_pixel_ideal`, `render_pixel_ideal_unclipped`, `render_pixel_untouched`,
+                              `render_pixel_c01` (the property in one statement over the input triangles)
 -/
 import Retro.Props.C01.Persp
 import Retro.Props.C01.Compose
+import Retro.Props.C01.IdealFrag
+import Retro.Props.C01.Ideal
